@@ -1019,6 +1019,31 @@ M("C11.membership_prefix_from_extension", ["C11"], "emitter/file/src/lib.rs",
   "            if is_file_in_set(file_name, file_prefix, file_ext) {",
   "            if is_file_in_set(file_name, file_ext, file_ext) {", "C11.R3:listing-filter")
 
+# ---- reverse patch of fix d698938 (D22: empty fragment facing a hole) and variants -----------------------------------------------------
+M("C16.rev_fix_empty_fragment_facing_hole", ["C16"], "core/src/template.rs",
+  """                (PartKind::Text { value: ref a }, PartKind::Hole { .. }) if a.get().is_empty() => {
+                    ai += 1;
+
+                    continue;
+                }
+                (PartKind::Hole { .. }, PartKind::Text { value: ref b }) if b.get().is_empty() => {
+                    bi += 1;
+
+                    continue;
+                }
+""", "", "C16.R1g")
+M("C16.empty_fragment_step_takes_the_hole_too", ["C16"], "core/src/template.rs",
+  """                (PartKind::Text { value: ref a }, PartKind::Hole { .. }) if a.get().is_empty() => {
+                    ai += 1;
+""",
+  """                (PartKind::Text { value: ref a }, PartKind::Hole { .. }) if a.get().is_empty() => {
+                    ai += 1;
+                    bi += 1;
+""", "C16.R1g")
+M("C16.nonempty_fragment_facing_hole_skipped", ["C16"], "core/src/template.rs",
+  "(PartKind::Hole { .. }, PartKind::Text { value: ref b }) if b.get().is_empty() => {",
+  "(PartKind::Hole { .. }, PartKind::Text { value: ref b }) if !b.get().is_empty() => {", "C16.R1")
+
 # ---- round 6 (own probing of the blocking entry points): Trigger, send_or_wait, callbacks ------------------------------------------
 M("C07.wait_zero_timeout_reports_flushed", ["C07"], "batcher/src/sync.rs",
   "            if timeout == Duration::ZERO {\n                return false;", "            if timeout == Duration::ZERO {\n                return true;", "C07.R4:Trigger")
